@@ -316,6 +316,20 @@ fn check_update(sp: &ParaSpec, v: &[usize], kind: usize, lossless: bool) -> Vec<
             out.push(viol("update-sets-and-removes-own-fields", ctx(&format!("field {} occurs {} times, expected {}", f.name, n, want))));
         }
     }
+    // "all of this is identical for lossy and lossless paragraphs": same fields, order and values after the update
+    // (priors 0, 1, 3, 5 are the same text for both back-ends)
+    if lossless && matches!(kind, 0 | 1 | 3 | 5) {
+        match (sp.update)(&value_text, &prior, false) {
+            Ok(lossy_printed) => {
+                let a = lossy_para(&lossy_printed).map(|p| p.all_items()).unwrap_or_default();
+                let norm_items = |it: &Items| -> Vec<(String, Vec<String>)> { it.iter().map(|(k, v)| (k.clone(), v.split('\n').map(|l| l.trim().to_string()).filter(|l| !l.is_empty()).collect())).collect() };
+                if norm_items(&a) != norm_items(&printed_items) {
+                    out.push(viol("backends-agree", ctx(&format!("the lossy back-end gives {:?}", lossy_printed))));
+                }
+            }
+            Err(e) => out.push(viol("backends-agree", ctx(&format!("the lossy back-end fails: {}", e)))),
+        }
+    }
     // foreign fields (and comments / their formatting on the lossless back-end) unchanged, in order
     let lines: Vec<&str> = printed.lines().collect();
     let mut pos = 0;
